@@ -4,11 +4,13 @@ TITLE = "Message HTML and text shown in the web UI cannot carry active content"
 LEVEL_TEXT = ("PARTIAL (hypotheses about two third-party parsers remain). Proved in Coq, for all inputs: "
               "(HTML path, token level: sanitized_html_inert) for EVERY token list and EVERY answer of the attribute pattern matcher, the "
               "modelled bluemonday policy loop (tables read from the real policy object) emits only allowed, non-forbidden elements, no "
-              "event-handler attribute, URL attributes only where validURL ran and only with a scheme on a fixed safe list, text and attribute "
+              "event-handler attribute on start / self-closing tags (end-tag attributes are passed through by the model as bluemonday would; "
+              "the tokenizer never reports any), URL attributes only where validURL ran and only with a scheme on a fixed safe list, text and attribute "
               "values escaped on render; style values are passed through unchanged (style_values_pass_through) and the ones inbucket writes "
-              "hold only allow-listed declarations (style_only_allowed, filter_attr_quoted). (Text path: text_to_html_inert) every markup "
+              "hold only allow-listed declarations (style_only_allowed, filter_attr_quoted; composed under H-tok in html_style_clause). "
+              "(Text path: text_to_html_escaped_and_anchored) every markup "
               "byte of the input is escaped invertibly, anchors stand around exactly the URL match segments, every tag is one of three "
-              "generated forms, every href is attribute-safe. Each model is compared byte for byte with the real function on every case "
+              "generated forms, every href is attribute-safe; the SCHEME of a generated href is NOT restricted (see not_proved). Each model is compared byte for byte with the real function on every case "
               "(sanitizeStyle, sanitizeStyleTags, policy.Sanitize incl. rendering, TextToHTML). NOT proved: that the HTML tokenizer and the "
               "CSS scanner see what a browser sees.")
 LEVEL_NOTE = ("Remaining hypotheses about third-party code (each validated per case, never proved): "
@@ -19,7 +21,14 @@ LEVEL_NOTE = ("Remaining hypotheses about third-party code (each validated per c
               "style value of the final output is re-scanned, each declaration head must be allow-listed); "
               "(H-url) net/url: the String() of a successfully parsed URL shows a browser the scheme Parse reported (hypothesis of "
               "sanitized_html_inert, checked on every parsed href/src/cite by the extracted browser_scheme); "
-              "(H-re) regexp, text path only: URL matches are non-empty and free of CR/LF (hypothesis of text_to_html_inert, checked per case). "
+              "(H-re) regexp, text path only: URL matches are non-empty and free of CR/LF (hypothesis of text_to_html_escaped_and_anchored, checked per case). "
+              "NOT claimed at all: (i) the scheme of the anchors TextToHTML generates: the URL pattern matches javascript:alert(1), data:text/html,... "
+              "and the server makes them clickable anchors (target=_blank); the property's clause on plain text (escaped text + server-generated "
+              "anchors/line breaks) does not restrict the scheme, the property's TITLE arguably does — shown false of the code by "
+              "text_anchor_scheme_not_claimed and observed on the real TextToHTML on every run (evidence: observation_javascript_anchor); "
+              "(ii) 'sanitising never fails or panics' has no theorem: the models are total functions over token lists the parsers already "
+              "produced; it is tested by the long-token family (each token kind at 32 KiB, 64 KiB +- a few bytes, 150-400 KiB), the mutated and "
+              "raw garbage streams, and an oracle that turns any error return, the UI's failure page, or a panic into a violation. "
               "No longer assumed: bluemonday's policy engine (element/attribute filtering, content skipping, URL scheme decision, rel/target "
               "additions) and x/net/html's Token.String rendering are modelled and proved; regexp answers for attribute patterns are universally "
               "quantified in the theorem; both EscapeString tables are obtained by running the functions on all 256 bytes. Policy features the "
@@ -45,9 +54,17 @@ ASSUMPTIONS = [
     "H-tok: a browser tokenises the served bytes as x/net/html does (tested: re-tokenise + tree re-parse of every final output, spec tag_inert on every start tag)",
     "H-css: a browser splits style declarations where gorilla/css sees ';' tokens (tested: re-scan of every emitted style value)",
     "H-url: url.Parse(...).String() shows a browser the scheme Parse reported (hypothesis of sanitized_html_inert; checked on every case)",
-    "H-re: URL matches of regexp are non-empty and free of CR/LF (hypothesis of text_to_html_inert; checked on every case)",
+    "H-re: URL matches of regexp are non-empty and free of CR/LF (hypothesis of text_to_html_escaped_and_anchored; checked on every case)",
 ]
-NOT_PROVED = []
+NOT_PROVED = [
+    "text_anchor_scheme_safe_stmt (Proofs/SanitizeTextScheme.v): 'every anchor TextToHTML generates has a scheme on the safe list' — FALSE of the code "
+    "(Props/C18/text_anchor_scheme_not_claimed: javascript:alert(1) becomes <a href=\"javascript:alert(1)\" target=\"_blank\">); outside the "
+    "plain-text clause of the statement as read here (it restricts markup, not schemes); logged per run as observation_javascript_anchor",
+    "'Sanitising never fails or panics on malformed markup': no theorem (the models are total over already-produced token lists; an error can "
+    "only come from the tokenizer, e.g. a buffer limit). Covered by testing only: long-token family + mutated/raw streams in html and msg kinds, "
+    "oracle verdicts fail:sanitiser-returned-error / fail:sanitiser-panicked",
+    "H-tok, H-css (what a browser sees vs what x/net/html and gorilla/css report): hypotheses, see assumptions; html_style_clause states H-tok explicitly",
+]
 
 
 def _tokcount(f):
